@@ -320,8 +320,22 @@ def main():
 
 
 MANIFEST = {
-    "claimed": False,
-    "text": "",
-    "note": "",
+    "claimed": True,
+    "text": "Theorems (Coq, model of the repaired load of branch fix-c27): C27_roundtrip (every key set with valid primary, 64-byte keys, "
+            "< 2^32 keys, stored at any time <= i64::MAX, loads back identically, also with trailing bytes) and C27_restart_keeps_cookies "
+            "(the restarted daemon holds exactly that set, cookies issued before still decode); C27_crash (EVERY proper prefix of the stored "
+            "bytes, the empty file included, is rejected by load) and C27_crash_restart (after a crash at any point of the store the next "
+            "start has exactly the stored set or fresh keys); C27_loaded_wellformed / C27_loaded_usable (for ANY byte string, what load "
+            "accepts has 0 <= primary < #keys, 64-byte keys, a representable time, and issues a cookie that decodes back - the only panic site "
+            "of encode is excluded); C27_load_total (load never panics); C27_start_usable (missing file or any content: the daemon starts with "
+            "a usable key set). Tied on every run to KeySetProvider::{load,store} (every prefix of stored images exhaustively per file, every "
+            "single-field header corruption, bit flips, garbage; what loads is used) and to nts_key_provider::spawn (restore / fresh keys / "
+            "published set / mode 0600 of a newly created file).",
+    "note": "Trusted: Coq kernel + vm_compute; hand-written model coq/Model/KeyFile.v (store, load, start); harness + driver. Assumed, not "
+            "proved: a crash leaves a prefix of the bytes written by the sequential write_all calls after the truncating open; SystemTime "
+            "represents exactly the seconds <= i64::MAX. Observed, not proved: mode 0600 of the newly created file (run-time check + constants "
+            "FILE_MODE_OCTAL_DIGITS, PROVIDER_TRUNCATE). Usability theorems carry C26's AEAD premises aead_correct, aead_tag16. The unrepaired "
+            "tree violates the property twice (primary = len accepted -> encode_cookie panics; time field >= 2^63 -> load panics, release "
+            "profile aborts): the check reports the concrete files until fix-c27 is merged. Print Assumptions: closed under the global context.",
     "design_ref": "DESIGN.md 3 C27",
 }
